@@ -699,9 +699,10 @@ impl Update {
         } else {
             Vec::new()
         };
-        // Update the rows.
-        for value_refs in rows.iter_mut() {
-            let should_update = match self.condition {
+        // Determine which rows to update.
+        let should_update: Vec<bool> = rows
+            .iter()
+            .map(|value_refs| match self.condition {
                 Some(ref expr) => {
                     let values: Vec<Value> = value_refs
                         .iter()
@@ -711,8 +712,50 @@ impl Update {
                     expr.eval(&row).to_bool()
                 }
                 None => true,
-            };
-            if should_update {
+            })
+            .collect();
+        // If primary key columns are being assigned, make sure that the keys
+        // of all rows will still be unique.
+        let key_indices = table.primary_key_indices();
+        let updates_keys = self.updates.iter().any(|(column_name, _)| {
+            let index = table.index_for_column_name(column_name).unwrap();
+            key_indices.contains(&index)
+        });
+        if updates_keys {
+            let mut new_keys_set = HashSet::<Vec<Value>>::new();
+            for (value_refs, &update) in rows.iter().zip(should_update.iter())
+            {
+                let mut values: Vec<Value> = value_refs
+                    .iter()
+                    .map(|value_ref| value_ref.to_value(string_pool))
+                    .collect();
+                if update {
+                    for (column_name, value) in self.updates.iter() {
+                        let index =
+                            table.index_for_column_name(column_name).unwrap();
+                        values[index] = value.clone().into_stored();
+                    }
+                }
+                let keys: Vec<Value> = key_indices
+                    .iter()
+                    .map(|&index| values[index].clone())
+                    .collect();
+                if new_keys_set.contains(&keys) {
+                    already_exists!(
+                        "Update would leave table {:?} with multiple rows \
+                         with key {:?}",
+                        self.table_name,
+                        keys
+                    );
+                }
+                new_keys_set.insert(keys);
+            }
+        }
+        // Update the rows.
+        for (value_refs, &update) in
+            rows.iter_mut().zip(should_update.iter())
+        {
+            if update {
                 for (column_name, value) in self.updates.iter() {
                     let index =
                         table.index_for_column_name(column_name).unwrap();
@@ -721,6 +764,18 @@ impl Update {
                     *value_ref = ValueRef::create(value.clone(), string_pool);
                 }
             }
+        }
+        // If primary keys changed, put the rows back into primary key order.
+        if updates_keys {
+            let mut rows_map = BTreeMap::<Vec<Value>, Vec<ValueRef>>::new();
+            for row in rows.into_iter() {
+                let keys: Vec<Value> = key_indices
+                    .iter()
+                    .map(|&index| row[index].to_value(string_pool))
+                    .collect();
+                rows_map.insert(keys, row);
+            }
+            rows = rows_map.into_values().collect();
         }
         // Write the table back out to the file.
         let stream = comp.create_stream(&stream_name)?;
